@@ -20,7 +20,7 @@ ORACLE = {
     "compile_quasiquote": {"FALSE": 1},
     "compile_runtime_procedure_application": {"FALSE": 2},
     "compile_runnable": {"TRUE": 1, "LAST": 1},   # TRUE: the unspliced fallback for an empty splice; LAST: the spliced forms
-    "eval": {"TRUE": 1},
+    "eval": {"TRUE": 1, "LAST": 1},
 }
 WHY = {
     "compile_if": "the test of `if` is not a tail position; consequent and alternate inherit the context",
@@ -30,7 +30,7 @@ WHY = {
     "compile_quasiquote": "an unquoted expression is an operand of list construction",
     "compile_runtime_procedure_application": "operands and operator are evaluated before the call",
     "compile_runnable": "a top-level expression is the body of the entry procedure; of the spliced forms of an outermost begin only the last is in tail position",
-    "eval": "the evaluated expression is the body of a fresh top-level procedure",
+    "eval": "the evaluated expression is the body of a fresh top-level procedure; of the spliced forms of a begin only the last is in tail position",
     "compile": "transformation wrapper: inherits", "compile_expression": "dispatcher: inherits",
     "compile_procedure_application": "special-form dispatcher: inherits",
 }
